@@ -19,6 +19,7 @@ pub struct EditSpec {
     /// 6 scalar := a length-derived value, 7 toggle dynamic params, 8 consistent re-declaration,
     /// 11 a committed table re-declared as single-column with its rows replaced by their leaf hashes,
     /// 10 a continuous-page header appended (zero / one / PRF product, small / extreme size),
+    /// 12 one header scalar of the public input (step count, bounds, layout code, padding, segment bounds) set to an extreme,
     /// 9 one structural dynamic parameter (uses_*, *_row_ratio, num_columns_*, cpu_component_step) set to a small/extreme value
     pub kind: u8,
     pub target: u16,
@@ -198,7 +199,7 @@ pub fn apply_script(img: &mut Value, edits: &[EditSpec], dyn_params: Option<&Val
     for (ei, e) in edits.iter().enumerate() {
         let (slots, vecs) = enumerate(img);
         let es = mix(seed, ei as u64);
-        match e.kind % 12 {
+        match e.kind % 13 {
             11 => {
                 // a table re-declared as single-column: each row's cells are replaced by the one value whose
                 // Montgomery form is the row's leaf hash, so the Merkle opening still verifies
@@ -220,6 +221,24 @@ pub fn apply_script(img: &mut Value, edits: &[EditSpec], dyn_params: Option<&Val
                         *slot = Value::String("0x1".into());
                     }
                     applied.push(format!("collapse_to_single_column:{}", which));
+                }
+            }
+            12 => {
+                // one of the public input's header scalars (step count, range-check bounds, layout code,
+                // padding cell, segment bounds) set to an extreme
+                let hs: Vec<&Slot> = slots.iter().filter(|s| s.ptr.starts_with("/public_input/") && !s.ptr.starts_with("/public_input/main_page") && !s.ptr.starts_with("/public_input/dynamic_params")).collect();
+                if hs.is_empty() {
+                    continue;
+                }
+                let s = hs[pick(e.target, hs.len())];
+                let val = match s.kind {
+                    SlotKind::Felt => felt_str(&extreme_felt(e.val)),
+                    SlotKind::U8 => (extreme_u64(e.val) & 0xff).to_string(),
+                    _ => extreme_u64(e.val).to_string(),
+                };
+                let ptr = s.ptr.clone();
+                if apply(img, &Edit::Set { ptr: ptr.clone(), val }) {
+                    applied.push(format!("set_extreme:{}", ptr));
                 }
             }
             10 => {
@@ -261,7 +280,7 @@ pub fn apply_script(img: &mut Value, edits: &[EditSpec], dyn_params: Option<&Val
                     continue;
                 }
                 let v = &vecs[pick(e.target, vecs.len())];
-                let edit = match e.kind % 12 {
+                let edit = match e.kind % 13 {
                     0 => {
                         let len = match e.val % 4 {
                             0 => 0,
@@ -285,7 +304,7 @@ pub fn apply_script(img: &mut Value, edits: &[EditSpec], dyn_params: Option<&Val
                     continue;
                 }
                 let s = &slots[pick(e.target, slots.len())];
-                let val = if e.kind % 12 == 5 {
+                let val = if e.kind % 13 == 5 {
                     match s.kind {
                         SlotKind::Felt => felt_str(&extreme_felt(e.val)),
                         SlotKind::U8 => (extreme_u64(e.val) & 0xff).to_string(),
@@ -419,13 +438,20 @@ pub fn check(env: &Env, c: &Case) -> Outcome {
 
 pub fn strategy() -> impl Strategy<Value = Case> {
     let edit = (
-        prop_oneof![2 => 0u8..5, 3 => 5u8..7, 1 => Just(7u8), 3 => Just(8u8), 2 => Just(9u8), 1 => Just(10u8), 1 => Just(11u8)],
+        prop_oneof![2 => 0u8..5, 3 => 5u8..7, 1 => Just(7u8), 3 => Just(8u8), 2 => Just(9u8), 1 => Just(10u8), 1 => Just(11u8), 1 => Just(12u8)],
         any::<u16>(),
         any::<u8>(),
         any::<u8>(),
     )
         .prop_map(|(kind, target, val, n)| EditSpec { kind, target, val, n });
     (any::<u8>(), proptest::collection::vec(edit, 1..=4), prop_oneof![6 => Just(0u8), 1 => Just(1u8), 1 => Just(2u8), 1 => Just(3u8)]).prop_map(|(base, edits, entry)| Case { base, raw: vec![], edits, entry })
+}
+
+/// public-input sweep: 1..2 header scalars at extremes, entry points validate_public_input /
+/// verify_public_input (a tampered public input never gets that far inside StarkProof::verify)
+pub fn pi_strategy() -> impl Strategy<Value = Case> {
+    let edit = (any::<u16>(), 0u8..16, any::<u8>()).prop_map(|(target, val, n)| EditSpec { kind: 12, target, val, n });
+    (any::<u8>(), proptest::collection::vec(edit, 1..=2), prop_oneof![1 => Just(2u8), 1 => Just(3u8)]).prop_map(|(base, edits, entry)| Case { base, raw: vec![], edits, entry })
 }
 
 pub const LIMITS: Limits = Limits { cpu_s_per_case: 20, address_space_bytes: 4 << 30, wall_s_total: 1500 };
@@ -438,13 +464,18 @@ pub fn run(ctx: &Ctx) -> Report {
     let mut rep = Report::new();
     let n_shards = ctx.threads.max(1);
     run_children(ctx, "c18", n_shards, LIMITS, &mut rep);
+    run_children(ctx, "c18pi", n_shards, LIMITS, &mut rep);
     rep
 }
 
-pub fn child(ctx: &Ctx, ca: &ChildArgs, _label: &str) {
+pub fn child(ctx: &Ctx, ca: &ChildArgs, label: &str) {
     let mut rep = Report::new();
     let e = env(ctx, &mut rep);
-    pt_run_child(ctx, "c18", cases(ctx), ca, strategy(), |c| check(&e, c));
+    if label == "c18pi" {
+        pt_run_child(ctx, "c18pi", ctx.n(8000, 240000), ca, pi_strategy(), |c| check(&e, c));
+    } else {
+        pt_run_child(ctx, "c18", cases(ctx), ca, strategy(), |c| check(&e, c));
+    }
 }
 
 pub fn replay(ctx: &Ctx, v: &Value) -> Result<Outcome, String> {
@@ -454,4 +485,4 @@ pub fn replay(ctx: &Ctx, v: &Value) -> Result<Outcome, String> {
     Ok(check(&e, &c))
 }
 
-pub const RULE: &str = "accepted proofs of the build (one per layout family, preferring masked-hash proofs, plus the fixture) with a proptest-generated script of 1..4 edits over the serde image: any vector truncated (0/1/len-1/len/2), emptied, shifted, extended (1/2/16/100), one element deleted; any scalar set to an extreme (0,1,2,2^12,2^16,2^20,2^40,2^64-1,2^64,2^128,p-2,p-1) or to a value derived from an actual vector length (len, len+-1); dynamic parameters dropped/added; consistent re-declarations (query count, FRI layer count with all per-layer vectors resized, trace exponent shifted with all heights, last-layer bound with coefficient vector, friendly-layer count everywhere, dynamic column counts, blow-up with all heights). Entry points: StarkProof::verify (security level derived from the config as the CLI does), StarkConfig::validate, validate_public_input, verify_public_input. Runs in child processes (address-space limit, per-case CPU watchdog, write-ahead log) so that aborts and stack overflows are observed. Oracle: no panic/abort; Err and Ok are both fine. Non-trivial = the mutant passes configuration validation or the entry point is a validator; class = entry point x first failing stage; failure signature = panic source file + normalised message + entry point";
+pub const RULE: &str = "accepted proofs of the build (one per layout family, preferring masked-hash proofs, plus the fixture) with a proptest-generated script of 1..4 edits over the serde image: any vector truncated (0/1/len-1/len/2), emptied, shifted, extended (1/2/16/100), one element deleted; any scalar set to an extreme (0,1,2,2^12,2^16,2^20,2^31+1,2^32,2^40,2^63-1,2^63,2^64-1,2^64,2^128,p-2,p-1) or to a value derived from an actual vector length (len, len+-1); dynamic parameters dropped/added; consistent re-declarations (query count, FRI layer count with all per-layer vectors resized, trace exponent shifted with all heights, last-layer bound with coefficient vector, friendly-layer count everywhere, dynamic column counts, blow-up with all heights). plus a public-input sweep (1..2 header scalars of the public input — step count, range-check bounds, layout code, padding cell, every segment bound — at the extremes, through validate_public_input and verify_public_input directly, because a tampered public input never reaches them inside StarkProof::verify). Entry points: StarkProof::verify (security level derived from the config as the CLI does), StarkConfig::validate, validate_public_input, verify_public_input. Runs in child processes (address-space limit, per-case CPU watchdog, write-ahead log) so that aborts and stack overflows are observed. Oracle: no panic/abort; Err and Ok are both fine. Non-trivial = the mutant passes configuration validation or the entry point is a validator; class = entry point x first failing stage; failure signature = panic source file + normalised message + entry point";
